@@ -1,21 +1,47 @@
 (* C18 — Operator constructors accept exactly the documented type schemas.
    Only restated theorems, each closed by [exact], with Print Assumptions.
 
-   Reading guide.  X_check is the model of constructor X (coq/C18/Model.v: its `if`s in
-   source order; Accept t / Reject = *typecheck.Error / GoPanic = any other panic).
-   X_schema ... r (coq/C18/Spec.v, written from the doc comments, independent of the
-   model) says the inputs fit X's documented schema and r is the documented result type.
-   Every theorem quantifies over the whole inductive type grammar `ty`, every slice type
-   and every universe table U (method sets, registered frame.Ops).
+   Reading guide.  X_check is the model of constructor X as the code is now
+   (coq/C18/Model.v: its `if`s in source order; Accept t / Reject = *typecheck.Error /
+   GoPanic = any other panic).  X_schema ... r (coq/C18/Spec.v, written from the doc
+   comments, independent of the model) says the inputs fit X's documented schema and r is
+   the documented result type.  Every theorem quantifies over the whole inductive type
+   grammar `ty`, every slice type and every universe table U (method sets, registered
+   frame.Ops).
      C18_X_iff_schema    never a non-typecheck panic; accepted iff the inputs fit; rejected
                          (typecheck error) iff they do not.
      C18_X_out_type_spec an accepted call returns the documented columns, key prefix and
                          shard count (`meets`).
-   Hypotheses name the regions where the code deviates from the documented schema; each
-   region has a *_refuted theorem below with a witness, and a Sig in the driver. *)
+   The only hypothesis left for the current code is prefix_in_range (Reshuffle, Reshard,
+   Cogroup): that region is an open finding (Sig prefix-exceeds-columns-panics).
+   Three other regions were repaired in /repo (ReaderFunc result arity; variadic functions
+   in the exact-form constructors, 74b12a5; shard parameter tested by Kind, b77039e).  The
+   model is parameterised by the set R of repairs (X_check = X_check_gen current_code);
+   the *_any_repairs theorems hold for every R under `the repair is in or the input is
+   outside its region`, and the *_refuted theorems are witnesses against the code with one
+   repair missing. *)
 From Coq Require Import List ZArith Bool.
 Import ListNotations.
 Require Import BS.C18.Types BS.C18.Model BS.C18.Spec BS.C18.Proofs BS.C18.Theorems BS.C18.Refuted.
+
+(* what the code is now: all three repairs are in.  If a repair is reverted in /repo the
+   correspondence breaks (MISMATCH and VIOL on the region's cases); flipping a switch in
+   Model.v to follow it breaks the unconditional theorems below and this pin. *)
+Theorem C18_model_switch :
+  current_code = mkRep true true true /\
+  readerfunc_check = readerfunc_check_gen current_code /\
+  writerfunc_check = writerfunc_check_gen current_code /\
+  fold_check = fold_check_gen current_code /\
+  reduce_check = reduce_check_gen current_code /\
+  repartition_check = repartition_check_gen current_code.
+Proof. repeat split. Qed.
+
+(* the hypotheses of the *_any_repairs theorems *)
+Theorem C18_repair_guards : forall R f,
+  (variadic_ok R f <-> rep_reject_variadic R = true \/ fn_variadic f = false) /\
+  (shard_ok R f <-> rep_shard_exact R = true \/ fn_shard_named f = false) /\
+  (numout_ok R f <-> rep_numout R = true \/ fn_numout f = 2%nat).
+Proof. intros; repeat split; intro H; exact H. Qed.
 
 Theorem C18_map_iff_schema : forall U s f,
   map_check U s f <> GoPanic /\
@@ -54,14 +80,12 @@ Print Assumptions C18_flatmap_iff_schema.
 Print Assumptions C18_flatmap_out_type_spec.
 
 Theorem C18_fold_iff_schema : forall U s f,
-  fn_variadic f = false ->
   fold_check U s f <> GoPanic /\
   ((exists out, fold_check U s f = Accept out) <-> (exists r, fold_schema U s f r)) /\
   ((~ exists r, fold_schema U s f r) -> fold_check U s f = Reject).
 Proof. exact fold_iff_schema. Qed.
 
 Theorem C18_fold_out_type_spec : forall U s f,
-  fn_variadic f = false ->
   forall out, fold_check U s f = Accept out -> exists r, fold_schema U s f r /\ meets r out.
 Proof. exact fold_out_type_spec. Qed.
 Print Assumptions C18_fold_iff_schema.
@@ -92,14 +116,12 @@ Print Assumptions C18_prefixed_iff_schema.
 Print Assumptions C18_prefixed_out_type_spec.
 
 Theorem C18_reduce_iff_schema : forall U s f,
-  fn_variadic f = false ->
   reduce_check U s f <> GoPanic /\
   ((exists out, reduce_check U s f = Accept out) <-> (exists r, reduce_schema U s f r)) /\
   ((~ exists r, reduce_schema U s f r) -> reduce_check U s f = Reject).
 Proof. exact reduce_iff_schema. Qed.
 
 Theorem C18_reduce_out_type_spec : forall U s f,
-  fn_variadic f = false ->
   forall out, reduce_check U s f = Accept out -> exists r, reduce_schema U s f r /\ meets r out.
 Proof. exact reduce_out_type_spec. Qed.
 Print Assumptions C18_reduce_iff_schema.
@@ -119,14 +141,12 @@ Print Assumptions C18_reshuffle_iff_schema.
 Print Assumptions C18_reshuffle_out_type_spec.
 
 Theorem C18_repartition_iff_schema : forall s f,
-  fn_variadic f = false ->
   repartition_check s f <> GoPanic /\
   ((exists out, repartition_check s f = Accept out) <-> (exists r, repartition_schema s f r)) /\
   ((~ exists r, repartition_schema s f r) -> repartition_check s f = Reject).
 Proof. exact repartition_iff_schema. Qed.
 
 Theorem C18_repartition_out_type_spec : forall s f,
-  fn_variadic f = false ->
   forall out, repartition_check s f = Accept out -> exists r, repartition_schema s f r /\ meets r out.
 Proof. exact repartition_out_type_spec. Qed.
 Print Assumptions C18_repartition_iff_schema.
@@ -170,51 +190,25 @@ Proof. exact const_out_type_spec. Qed.
 Print Assumptions C18_const_iff_schema.
 Print Assumptions C18_const_out_type_spec.
 
-Theorem C18_readerfunc_guarded_iff_schema : forall n f,
-  fn_numout f = 2%nat ->
-  fn_variadic f = false ->
-  fn_shard_named f = false ->
-  readerfunc_check_gen false n f <> GoPanic /\
-  ((exists out, readerfunc_check_gen false n f = Accept out) <-> (exists r, readerfunc_schema n f r)) /\
-  ((~ exists r, readerfunc_schema n f r) -> readerfunc_check_gen false n f = Reject).
-Proof. exact readerfunc_iff_schema_guarded. Qed.
+Theorem C18_readerfunc_iff_schema : forall n f,
+  readerfunc_check n f <> GoPanic /\
+  ((exists out, readerfunc_check n f = Accept out) <-> (exists r, readerfunc_schema n f r)) /\
+  ((~ exists r, readerfunc_schema n f r) -> readerfunc_check n f = Reject).
+Proof. exact readerfunc_iff_schema. Qed.
 
-Theorem C18_readerfunc_guarded_out_type_spec : forall n f,
-  fn_numout f = 2%nat ->
-  fn_variadic f = false ->
-  fn_shard_named f = false ->
-  forall out, readerfunc_check_gen false n f = Accept out -> exists r, readerfunc_schema n f r /\ meets r out.
-Proof. exact readerfunc_out_type_spec_guarded. Qed.
-Print Assumptions C18_readerfunc_guarded_iff_schema.
-Print Assumptions C18_readerfunc_guarded_out_type_spec.
-
-Theorem C18_readerfunc_fixed_iff_schema : forall n f,
-  fn_variadic f = false ->
-  fn_shard_named f = false ->
-  readerfunc_check_gen true n f <> GoPanic /\
-  ((exists out, readerfunc_check_gen true n f = Accept out) <-> (exists r, readerfunc_schema n f r)) /\
-  ((~ exists r, readerfunc_schema n f r) -> readerfunc_check_gen true n f = Reject).
-Proof. exact readerfunc_iff_schema_fixed. Qed.
-
-Theorem C18_readerfunc_fixed_out_type_spec : forall n f,
-  fn_variadic f = false ->
-  fn_shard_named f = false ->
-  forall out, readerfunc_check_gen true n f = Accept out -> exists r, readerfunc_schema n f r /\ meets r out.
-Proof. exact readerfunc_out_type_spec_fixed. Qed.
-Print Assumptions C18_readerfunc_fixed_iff_schema.
-Print Assumptions C18_readerfunc_fixed_out_type_spec.
+Theorem C18_readerfunc_out_type_spec : forall n f,
+  forall out, readerfunc_check n f = Accept out -> exists r, readerfunc_schema n f r /\ meets r out.
+Proof. exact readerfunc_out_type_spec. Qed.
+Print Assumptions C18_readerfunc_iff_schema.
+Print Assumptions C18_readerfunc_out_type_spec.
 
 Theorem C18_writerfunc_iff_schema : forall s f,
-  fn_variadic f = false ->
-  fn_shard_named f = false ->
   writerfunc_check s f <> GoPanic /\
   ((exists out, writerfunc_check s f = Accept out) <-> (exists r, writerfunc_schema s f r)) /\
   ((~ exists r, writerfunc_schema s f r) -> writerfunc_check s f = Reject).
 Proof. exact writerfunc_iff_schema. Qed.
 
 Theorem C18_writerfunc_out_type_spec : forall s f,
-  fn_variadic f = false ->
-  fn_shard_named f = false ->
   forall out, writerfunc_check s f = Accept out -> exists r, writerfunc_schema s f r /\ meets r out.
 Proof. exact writerfunc_out_type_spec. Qed.
 Print Assumptions C18_writerfunc_iff_schema.
@@ -232,6 +226,82 @@ Proof. exact scan_out_type_spec. Qed.
 Print Assumptions C18_scan_iff_schema.
 Print Assumptions C18_scan_out_type_spec.
 
+Theorem C18_fold_any_repairs_iff_schema : forall R U s f,
+  variadic_ok R f ->
+  fold_check_gen R U s f <> GoPanic /\
+  ((exists out, fold_check_gen R U s f = Accept out) <-> (exists r, fold_schema U s f r)) /\
+  ((~ exists r, fold_schema U s f r) -> fold_check_gen R U s f = Reject).
+Proof. exact fold_iff_schema_any. Qed.
+
+Theorem C18_fold_any_repairs_out_type_spec : forall R U s f,
+  variadic_ok R f ->
+  forall out, fold_check_gen R U s f = Accept out -> exists r, fold_schema U s f r /\ meets r out.
+Proof. exact fold_out_type_spec_any. Qed.
+Print Assumptions C18_fold_any_repairs_iff_schema.
+Print Assumptions C18_fold_any_repairs_out_type_spec.
+
+Theorem C18_reduce_any_repairs_iff_schema : forall R U s f,
+  variadic_ok R f ->
+  reduce_check_gen R U s f <> GoPanic /\
+  ((exists out, reduce_check_gen R U s f = Accept out) <-> (exists r, reduce_schema U s f r)) /\
+  ((~ exists r, reduce_schema U s f r) -> reduce_check_gen R U s f = Reject).
+Proof. exact reduce_iff_schema_any. Qed.
+
+Theorem C18_reduce_any_repairs_out_type_spec : forall R U s f,
+  variadic_ok R f ->
+  forall out, reduce_check_gen R U s f = Accept out -> exists r, reduce_schema U s f r /\ meets r out.
+Proof. exact reduce_out_type_spec_any. Qed.
+Print Assumptions C18_reduce_any_repairs_iff_schema.
+Print Assumptions C18_reduce_any_repairs_out_type_spec.
+
+Theorem C18_repartition_any_repairs_iff_schema : forall R s f,
+  variadic_ok R f ->
+  repartition_check_gen R s f <> GoPanic /\
+  ((exists out, repartition_check_gen R s f = Accept out) <-> (exists r, repartition_schema s f r)) /\
+  ((~ exists r, repartition_schema s f r) -> repartition_check_gen R s f = Reject).
+Proof. exact repartition_iff_schema_any. Qed.
+
+Theorem C18_repartition_any_repairs_out_type_spec : forall R s f,
+  variadic_ok R f ->
+  forall out, repartition_check_gen R s f = Accept out -> exists r, repartition_schema s f r /\ meets r out.
+Proof. exact repartition_out_type_spec_any. Qed.
+Print Assumptions C18_repartition_any_repairs_iff_schema.
+Print Assumptions C18_repartition_any_repairs_out_type_spec.
+
+Theorem C18_writerfunc_any_repairs_iff_schema : forall R s f,
+  variadic_ok R f ->
+  shard_ok R f ->
+  writerfunc_check_gen R s f <> GoPanic /\
+  ((exists out, writerfunc_check_gen R s f = Accept out) <-> (exists r, writerfunc_schema s f r)) /\
+  ((~ exists r, writerfunc_schema s f r) -> writerfunc_check_gen R s f = Reject).
+Proof. exact writerfunc_iff_schema_any. Qed.
+
+Theorem C18_writerfunc_any_repairs_out_type_spec : forall R s f,
+  variadic_ok R f ->
+  shard_ok R f ->
+  forall out, writerfunc_check_gen R s f = Accept out -> exists r, writerfunc_schema s f r /\ meets r out.
+Proof. exact writerfunc_out_type_spec_any. Qed.
+Print Assumptions C18_writerfunc_any_repairs_iff_schema.
+Print Assumptions C18_writerfunc_any_repairs_out_type_spec.
+
+Theorem C18_readerfunc_any_repairs_iff_schema : forall R n f,
+  variadic_ok R f ->
+  shard_ok R f ->
+  numout_ok R f ->
+  readerfunc_check_gen R n f <> GoPanic /\
+  ((exists out, readerfunc_check_gen R n f = Accept out) <-> (exists r, readerfunc_schema n f r)) /\
+  ((~ exists r, readerfunc_schema n f r) -> readerfunc_check_gen R n f = Reject).
+Proof. exact readerfunc_iff_schema_any. Qed.
+
+Theorem C18_readerfunc_any_repairs_out_type_spec : forall R n f,
+  variadic_ok R f ->
+  shard_ok R f ->
+  numout_ok R f ->
+  forall out, readerfunc_check_gen R n f = Accept out -> exists r, readerfunc_schema n f r /\ meets r out.
+Proof. exact readerfunc_out_type_spec_any. Qed.
+Print Assumptions C18_readerfunc_any_repairs_iff_schema.
+Print Assumptions C18_readerfunc_any_repairs_out_type_spec.
+
 (* Cogroup: acceptance characterised without any hypothesis *)
 Theorem C18_cogroup_accept_iff_schema : forall U ss,
   (exists out, cogroup_check U ss = Accept out) <-> (exists r, cogroup_schema U ss r).
@@ -246,61 +316,71 @@ Theorem C18_invocation_iff_schema : forall U params args,
 Proof. exact invocation_iff_schema. Qed.
 Print Assumptions C18_invocation_iff_schema.
 
-(* the model evaluated by the correspondence check is the unfixed one *)
-Theorem C18_model_switch : readerfunc_check = readerfunc_check_gen readerfunc_numout_checked.
-Proof. reflexivity. Qed.
+(* ---------------- witnesses against the code with one repair missing ------------------ *)
 
-(* ---------------- refutations: the property text is false of the faithful model ------------- *)
-
-(* ReaderFunc indexes fn.Out.Out(0), Out(1) without checking NumOut() == 2 (slice.go:329):
-   a one-result reader panics inside reflect, a three-result reader is accepted. *)
+(* without the NumOut() == 2 test ReaderFunc indexes fn.Out.Out(0), Out(1) unguarded: a
+   one-result reader panics inside reflect, a three-result reader is accepted. *)
 Theorem C18_readerfunc_numout_refuted :
-  (exists f, (~ exists r, readerfunc_schema 1 f r) /\ readerfunc_check_gen false 1 f = GoPanic) /\
-  (exists f out, (~ exists r, readerfunc_schema 1 f r) /\ readerfunc_check_gen false 1 f = Accept out).
+  (exists f, (~ exists r, readerfunc_schema 1 f r) /\ readerfunc_check_gen no_numout_check 1 f = GoPanic) /\
+  (exists f out, (~ exists r, readerfunc_schema 1 f r) /\ readerfunc_check_gen no_numout_check 1 f = Accept out).
 Proof. exact readerfunc_numout_refuted. Qed.
 Print Assumptions C18_readerfunc_numout_refuted.
 
 Theorem C18_readerfunc_fix_rejects :
-  readerfunc_check_gen true 1 reader_0out = Reject /\
-  readerfunc_check_gen true 1 reader_1out = Reject /\
-  readerfunc_check_gen true 1 reader_3out = Reject.
+  readerfunc_check 1 reader_0out = Reject /\
+  readerfunc_check 1 reader_1out = Reject /\
+  readerfunc_check 1 reader_3out = Reject.
 Proof. exact readerfunc_fix_rejects. Qed.
 
-(* the constructors with an exact documented form ignore IsVariadic *)
+(* without the IsVariadic test the exact-form constructors accept func(..., xs ...e) *)
 Theorem C18_fold_variadic_refuted :
   exists s f out, fn_variadic f = true /\ (~ exists r, fold_schema U0 s f r) /\
-                  fold_check U0 s f = Accept out.
+                  fold_check_gen no_variadic_check U0 s f = Accept out.
 Proof. exact fold_variadic_refuted. Qed.
 Theorem C18_reduce_variadic_refuted :
   exists s f out, fn_variadic f = true /\ (~ exists r, reduce_schema U0 s f r) /\
-                  reduce_check U0 s f = Accept out.
+                  reduce_check_gen no_variadic_check U0 s f = Accept out.
 Proof. exact reduce_variadic_refuted. Qed.
 Theorem C18_repartition_variadic_refuted :
   exists s f out, fn_variadic f = true /\ (~ exists r, repartition_schema s f r) /\
-                  repartition_check s f = Accept out.
+                  repartition_check_gen no_variadic_check s f = Accept out.
 Proof. exact repartition_variadic_refuted. Qed.
 Theorem C18_writerfunc_variadic_refuted :
   exists s f out, fn_variadic f = true /\ (~ exists r, writerfunc_schema s f r) /\
-                  writerfunc_check s f = Accept out.
+                  writerfunc_check_gen no_variadic_check s f = Accept out.
 Proof. exact writerfunc_variadic_refuted. Qed.
 Theorem C18_readerfunc_variadic_refuted :
   exists f out, fn_variadic f = true /\ fn_numout f = 2%nat /\
                 (~ exists r, readerfunc_schema 1 f r) /\
-                readerfunc_check_gen true 1 f = Accept out.
+                readerfunc_check_gen no_variadic_check 1 f = Accept out.
 Proof. exact readerfunc_variadic_refuted. Qed.
 Print Assumptions C18_fold_variadic_refuted.
 
-(* the shard parameter is tested by Kind() == reflect.Int, not by identity with int *)
+(* with the shard parameter tested by Kind() == reflect.Int a defined int type passes *)
 Theorem C18_readerfunc_shard_named_refuted :
   exists f out, fn_shard_named f = true /\ fn_variadic f = false /\ fn_numout f = 2%nat /\
                 (~ exists r, readerfunc_schema 1 f r) /\
-                readerfunc_check_gen true 1 f = Accept out.
+                readerfunc_check_gen shard_by_kind 1 f = Accept out.
 Proof. exact readerfunc_shard_named_refuted. Qed.
 Theorem C18_writerfunc_shard_named_refuted :
   exists s f out, fn_shard_named f = true /\ fn_variadic f = false /\
-                  (~ exists r, writerfunc_schema s f r) /\ writerfunc_check s f = Accept out.
+                  (~ exists r, writerfunc_schema s f r) /\
+                  writerfunc_check_gen shard_by_kind s f = Accept out.
 Proof. exact writerfunc_shard_named_refuted. Qed.
 Print Assumptions C18_writerfunc_shard_named_refuted.
+
+(* ... and the same witnesses are rejected by the code as it is now *)
+Theorem C18_variadic_and_shard_witnesses_now_rejected :
+  fold_check U0 (mkS [tint; ints] 1 1) (TFunc [tint] (Some tint) [tint]) = Reject /\
+  reduce_check U0 (mkS [tint; ints] 1 1) (TFunc [ints] (Some tint) [ints]) = Reject /\
+  repartition_check (mkS [ints] 1 2) (TFunc [tint] (Some tint) [tint]) = Reject /\
+  writerfunc_check (mkS [tint] 1 1) (TFunc [tint; tint; TError] (Some tint) [TError]) = Reject /\
+  readerfunc_check 1 (TFunc [tint; tint] (Some tint) [tint; TError]) = Reject /\
+  readerfunc_check 1 (TFunc [myint; tint; ints] None [tint; TError]) = Reject /\
+  writerfunc_check (mkS [tint] 1 1) (TFunc [myint; tint; TError; ints] None [TError]) = Reject.
+Proof. exact variadic_and_shard_witnesses_now_rejected. Qed.
+
+(* ---------------- open finding: the property text is false of the faithful model -------- *)
 
 (* Map (likewise Flatmap, Fold, Scan) returns a slice that inherits the input's Prefix();
    it can exceed the number of result columns, and Reshuffle / Reshard / Cogroup then
